@@ -269,6 +269,8 @@ def check_inits(ctx):
                     ctx.violation(rule, fi, '[%s] child init: %s' % (cname, [c.text() for c in child]), 'the scratch slot of the element must be initialised by the child\'s init with an empty keyword dict', fi.node.lineno, clause='b')
             if cname == 'Bits' and 'self.iam_first' in gt:
                 z = [e for e in p.effects if e.kind == 'setattr' and canon(e.name) == 'self.I.field_name']
+                z = z or [e for e in p.effects if e.kind == 'call' and canon(e.call.func) == 'self.I.init' and len(e.call.args) == 2
+                          and isinstance(e.call.args[1], ast.Dict) and not e.call.args[1].keys]
                 if not z:
                     ctx.violation(rule, fi, label, 'the shared bit-group slot is not initialised', fi.node.lineno, clause='b')
     ctx.unit('init_paths', n)
